@@ -607,3 +607,38 @@ package tabular
 //@   loop#1 decreases len(items) - rangeindex
 //@   loop#1 unfold chainOK(heap[valueProperty.chain], heap[valueProperty.key], heap[valueProperty.val], nil)
 //@   entry unfold chainOK(heap[valueProperty.chain], heap[valueProperty.key], heap[valueProperty.val], nil)
+
+//@ func New
+//@   tags C02,C09
+//@   assigns new(ATable), new(ErrorContainer), new(column)
+//@   ensures [fresh-empty-table] result != nil && fresh(result) && WF(result) && tblProps(result) && colsOwn(result) && len(result.rows) == 0 && result.nColumns == 0 && result.headerRow == nil && len(result.ErrorContainer.errors_) == 0
+//@   exit unfold chainOK(heap[valueProperty.chain], heap[valueProperty.key], heap[valueProperty.val], nil)
+
+//@ func (*ATable).AddHeaders
+//@   tags C02,C11,C13,C09
+//@   requires [table] WF(t) && tblProps(t) && colsOwn(t) && len(items) <= 1099511627774
+//@   requires [nested-cells-ok] forall i int :: {items[i]} 0 <= i && i < len(items) ==> (dyn(items[i]) == type[Cell] ==> cellValOK(items[i].(Cell)))
+//@   assigns t.headerRow, new(Row), t.columns, t.nColumns, elemscap(t.columns), new(column), t.ErrorContainer.errors_, elemscap(t.ErrorContainer.errors_), new(valueProperty), ghost cbErrN, ghost cbErrLog
+//@   ensures [invariant] WF(t) && tblProps(t) && colsOwn(t)
+//@   ensures [header-set] t.headerRow != nil && fresh(t.headerRow) && len(t.headerRow.cells) == len(items) @C02
+//@   ensures [items-in-order] forall k int :: {items[k]} 0 <= k && k < len(items) ==> t.headerRow.cells[k].raw === items[k] @C02
+//@   ensures [rows-unchanged] t.rows === old(t.rows) && forall i int :: {t.rows[i]} {old(t.rows[i])} 0 <= i && i < len(t.rows) ==> t.rows[i] == old(t.rows[i]) @C02
+//@   ensures [columns-follow] t.nColumns == max(old(t.nColumns), len(items)) @C02
+//@   ensures [returns-table] result == mkiface(type[*ATable], box(t))
+//@   loop#1 invariant -1 <= rangeindex && rangeindex < len(items)
+//@   loop#1 invariant hr != nil && fresh(hr) && !hr.isSeparator && hr.cells != nil && hr.inTable == nil && cellsOK(hr) && rowProps(hr) && cellsOwn(hr) && fresh(hr.cells) && len(hr.cells) == rangeindex + 1 && hr.ErrorContainer == t.ErrorContainer
+//@   loop#1 invariant forall k int :: {items[k]} 0 <= k && k <= rangeindex ==> hr.cells[k].raw === items[k]
+//@   loop#1 invariant WF(t) && tblProps(t) && colsOwn(t) && t.rows === old(t.rows) && t.nColumns == max(old(t.nColumns), len(items)) && t.headerRow == old(t.headerRow) && t.ErrorContainer == old(t.ErrorContainer)
+//@   loop#1 invariant forall i int :: {t.rows[i]} {old(t.rows[i])} 0 <= i && i < len(t.rows) ==> t.rows[i] == old(t.rows[i])
+//@   loop#1 invariant (t.columns.arr == old(t.columns.arr) && t.columns.off == old(t.columns.off) && t.columns.cap == old(t.columns.cap)) || fresh(t.columns)
+//@   loop#1 invariant (t.ErrorContainer.errors_.arr == old(t.ErrorContainer.errors_.arr) && t.ErrorContainer.errors_.off == old(t.ErrorContainer.errors_.off) && t.ErrorContainer.errors_.cap == old(t.ErrorContainer.errors_.cap)) || fresh(t.ErrorContainer.errors_)
+//@   loop#1 decreases len(items) - rangeindex
+//@   loop#1 unfold chainOK(heap[valueProperty.chain], heap[valueProperty.key], heap[valueProperty.val], nil)
+//@   loop#2 invariant -1 <= rangeindex && rangeindex < len(hr.cells)
+//@   loop#2 invariant WF(t) && tblProps(t) && colsOwn(t) && t.headerRow == hr && fresh(hr) && cellsOwn(hr) && rowProps(hr) && len(hr.cells) == len(items) && t.rows === old(t.rows) && t.nColumns == max(old(t.nColumns), len(items)) && t.ErrorContainer == old(t.ErrorContainer)
+//@   loop#2 invariant forall k int :: {items[k]} 0 <= k && k < len(items) ==> hr.cells[k].raw === items[k]
+//@   loop#2 invariant forall i int :: {t.rows[i]} {old(t.rows[i])} 0 <= i && i < len(t.rows) ==> t.rows[i] == old(t.rows[i])
+//@   loop#2 invariant (t.columns.arr == old(t.columns.arr) && t.columns.off == old(t.columns.off) && t.columns.cap == old(t.columns.cap)) || fresh(t.columns)
+//@   loop#2 invariant (t.ErrorContainer.errors_.arr == old(t.ErrorContainer.errors_.arr) && t.ErrorContainer.errors_.off == old(t.ErrorContainer.errors_.off) && t.ErrorContainer.errors_.cap == old(t.ErrorContainer.errors_.cap)) || fresh(t.ErrorContainer.errors_)
+//@   loop#2 decreases len(hr.cells) - rangeindex
+//@   entry unfold chainOK(heap[valueProperty.chain], heap[valueProperty.key], heap[valueProperty.val], nil)
